@@ -181,6 +181,12 @@ pub fn outline_sense(g: &WallGeom) -> f64 {
 }
 
 pub fn reveal_occluders(wall: &Wall, win: &Window) -> Vec<Occ> {
+    reveal_occluders_in(wall, win, true)
+}
+
+/// `outline_frame` false: the window rectangle is read as wall-local coordinates (what `Window::shades_for_setback`
+/// does today - the two coincide when the outline starts at the local origin with its first edge along +x)
+pub fn reveal_occluders_in(wall: &Wall, win: &Window, outline_frame: bool) -> Vec<Occ> {
     let (Some(pose), Some(wp)) = (Pose::of(&wall.geometry), win.geometry.position) else { return vec![] };
     let s = win.geometry.setback as f64;
     if s.abs() < 0.01 {
@@ -196,7 +202,7 @@ pub fn reveal_occluders(wall: &Wall, win: &Window) -> Vec<Occ> {
         [[x + w, y, 0.0], [x + w, y + h, 0.0], [x + w, y + h, -s], [x + w, y, -s]],
         [[x, y, 0.0], [x + w, y, 0.0], [x + w, y, -s], [x, y, -s]],
     ];
-    quads.iter().map(|q| occ_from_world_quad(q.map(|l| pose.to_world(poly_frame_to_local(&wall.geometry, l[0], l[1], l[2]))), win.id)).collect()
+    quads.iter().map(|q| occ_from_world_quad(q.map(|l| pose.to_world(if outline_frame { poly_frame_to_local(&wall.geometry, l[0], l[1], l[2]) } else { l })), win.id)).collect()
 }
 
 /// Build an Occ from 4 coplanar world points: frame = (e1 along p0->p1, e2 in-plane orthogonal, n)
@@ -216,6 +222,10 @@ pub fn occ_from_world_quad(p: [V3; 4], linked: Uuid) -> Occ {
 
 /// occluder set per the statement: exterior/adiabatic walls and shades with a position (+ reveals of `for_window`)
 pub fn occluders(m: &Model, own_wall: Uuid, for_window: &Window) -> Vec<Occ> {
+    occluders_in(m, own_wall, for_window, true)
+}
+
+pub fn occluders_in(m: &Model, own_wall: Uuid, for_window: &Window, reveals_in_outline_frame: bool) -> Vec<Occ> {
     let mut v = vec![];
     for w in &m.walls {
         if w.id == own_wall || !(w.bounds == BoundaryType::EXTERIOR || w.bounds == BoundaryType::ADIABATIC) || w.geometry.polygon.is_empty() {
@@ -234,7 +244,16 @@ pub fn occluders(m: &Model, own_wall: Uuid, for_window: &Window) -> Vec<Occ> {
         }
     }
     if let Some(w) = m.walls.iter().find(|w| w.id == own_wall) {
-        v.extend(reveal_occluders(w, for_window));
+        v.extend(reveal_occluders_in(w, for_window, reveals_in_outline_frame));
     }
     v
+}
+
+/// the frame windows are placed in coincides with the wall-local frame (outline starts at the origin, first edge along +x)
+pub fn outline_frame_is_local(g: &WallGeom) -> bool {
+    if g.polygon.len() < 2 {
+        return true;
+    }
+    let (p0, p1) = (g.polygon[0], g.polygon[1]);
+    p0.x.abs() < 1e-6 && p0.y.abs() < 1e-6 && (p1.y - p0.y).abs() < 1e-6 && p1.x > p0.x
 }
